@@ -24,9 +24,21 @@ def _lib_prefix():
     return os.path.dirname(os.path.abspath(gcmpy.__file__)) + os.sep
 
 
-def count_lines(fn):
+_HARNESS = os.path.dirname(os.path.abspath(__file__)) + os.sep
+
+
+def _traced(prefix, deep):
+    """which frames count: the library's own files, or (deep) everything the library calls as well - networkx, the standard
+    library - so that a call can also be abandoned while it is inside a generator or algorithm of a dependency"""
+    if deep:
+        return lambda fname: not fname.startswith(_HARNESS) and not fname.startswith("<")
+    return lambda fname: fname.startswith(prefix)
+
+
+def count_lines(fn, deep=False):
     """number of library source lines fn() executes (so that crash points can be spread over the whole call)"""
     prefix = _lib_prefix()
+    counted = _traced(prefix, deep)
     n = [0]
 
     def local(frame, event, arg):
@@ -35,7 +47,7 @@ def count_lines(fn):
         return local
 
     def glob(frame, event, arg):
-        return local if frame.f_code.co_filename.startswith(prefix) else None
+        return local if counted(frame.f_code.co_filename) else None
     old = sys.gettrace()
     sys.settrace(glob)
     try:
@@ -47,20 +59,21 @@ def count_lines(fn):
     return n[0]
 
 
-def abort_at(fn, k):
+def abort_at(fn, k, deep=False):
     """run fn(); abort it at the k-th library line.  Returns 'aborted', 'finished' (fewer than k lines) or 'raised'."""
     prefix = _lib_prefix()
+    counted = _traced(prefix, deep)
     n = [0]
 
     def local(frame, event, arg):
         if event == "line":
             n[0] += 1
             if n[0] == k:
-                raise InjectedAbort("abort injected at library line %s:%d" % (frame.f_code.co_filename[len(prefix):], frame.f_lineno))
+                raise InjectedAbort("abort injected at line %s:%d" % (frame.f_code.co_filename, frame.f_lineno))
         return local
 
     def glob(frame, event, arg):
-        return local if frame.f_code.co_filename.startswith(prefix) else None
+        return local if counted(frame.f_code.co_filename) else None
     old = sys.gettrace()
     sys.settrace(glob)
     try:
@@ -84,12 +97,12 @@ def spread(rng, total, how_many):
     return sorted(pts)[:how_many] if len(pts) > how_many else sorted(pts)
 
 
-def abort_frac(count_fn, fn, frac):
+def abort_frac(count_fn, fn, frac, deep=False):
     """abort fn() after the fraction `frac` of the library lines that count_fn() (the same work on separate objects) executes"""
-    total = count_lines(count_fn)
+    total = count_lines(count_fn, deep)
     if total <= 0:
         return "finished"
-    return abort_at(fn, max(1, min(total, int(frac * total) + 1)))
+    return abort_at(fn, max(1, min(total, int(frac * total) + 1)), deep)
 
 
 def mc(chk):
